@@ -99,7 +99,22 @@ def run_one(m, workdir):
 
 
 def run_for_property(prop, jobs=4):
-    ms = [m for m in load_mutants() if prop in m['property'].split(',')]
+    sys.path.insert(0, VERIF)
+    from rules.core.inventory_rule import anchor_files
+    mine = set(anchor_files(prop))
+    ms = []
+    nb = 0
+    for m in load_mutants():
+        if prop not in m['property'].split(','):
+            continue
+        if m['name'].startswith('benign-'):
+            # the thorough tier of one property re-runs only the harmless patches that touch its own files (at most 6); the complete
+            # matrix (every patch x every check) is `./check selftest`
+            touched = set(re.findall(r'^\+\+\+ b/(\S+)', open(m['patch']).read(), re.M))
+            if not (touched & mine) or nb >= 6:
+                continue
+            nb += 1
+        ms.append(m)
     # run only this property's check for each of them
     ms = [dict(m, property=prop) for m in ms]
     workdir = tempfile.mkdtemp(prefix='mls-selftest-')
